@@ -54,6 +54,34 @@ Theorem C12_shared_parallel_differs :
 Proof. exact el_shared_parallel_differs. Qed.
 Print Assumptions C12_shared_parallel_differs.
 
+(* The solver's OWN random stream (RandomSolver owns one random.Random; known finding
+   C12:random-solver:shared-python-random-per-chunk, not repaired).  Sequentially, distinct repetitions of positive length
+   read disjoint stretches of it ... *)
+Theorem C12_solver_stream_sequential_distinct :
+  forall reps L j j' p p', (0 < L)%nat -> j <> j' ->
+    nth_error (el_solver_seq reps L 0) j = Some p -> nth_error (el_solver_seq reps L 0) j' = Some p' -> p <> p'.
+Proof. exact el_solver_seq_distinct. Qed.
+Print Assumptions C12_solver_stream_sequential_distinct.
+
+(* ... but as soon as the task list is cut into two non-empty chunks, the first repetitions of both chunks replay the same
+   draws (the solver object is pickled with every chunk and the parent's copy never advances) ... *)
+Theorem C12_solver_stream_replayed_per_chunk :
+  forall c1 c2 rest L, (0 < c1)%nat -> (0 < c2)%nat ->
+    nth_error (el_solver_par (c1 :: c2 :: rest) L) 0 = Some 0%nat /\
+    nth_error (el_solver_par (c1 :: c2 :: rest) L) c1 = Some 0%nat.
+Proof. exact el_solver_par_replays. Qed.
+Print Assumptions C12_solver_stream_replayed_per_chunk.
+
+(* ... so the statement "the result is the same for every number of worker processes" is REFUTED for the random solver on the
+   pool's real chunking: 5 repetitions of 3 steps, 2 processes. *)
+Theorem C12_solver_stream_refuted :
+  exists reps procs L j j', j <> j' /\ (0 < L)%nat /\
+    (nth_error (el_solver_par (el_pool_chunks reps procs) L) j = nth_error (el_solver_par (el_pool_chunks reps procs) L) j')
+    /\ (nth_error (el_solver_par (el_pool_chunks reps procs) L) j <> None)
+    /\ (el_solver_par (el_pool_chunks reps procs) L <> el_solver_seq reps L 0).
+Proof. exact el_solver_shared_refuted. Qed.
+Print Assumptions C12_solver_stream_refuted.
+
 Example C12_eval_one_nontrivial :
   let e0 := ev_make 3 CCached GExploit None [1; 2; 4]%N in
   let v := [0; 1; 1; 3; 1; 2; 4; 9] in
